@@ -70,6 +70,16 @@ def main():
                      'zope.testrunner 2>&1 | grep -E "Ran [0-9]+ tests"'
                      % (PY, wt), env=env, cwd=wt)
         ran['upstream self-tests'] = out.strip()
+        for attempt in (2, 3):
+            # (a few of the self-tests are timing based as well)
+            if 'with 0 failures, 0 errors' in out:
+                break
+            rc, out = sh('%s -m zope.testrunner --test-path %s/src -s '
+                         'zope.testrunner 2>&1 | grep -E "Ran [0-9]+ tests"'
+                         % (PY, wt), env=env, cwd=wt)
+            ran['upstream self-tests attempt %d' % attempt] = out.strip()
+            if 'with 0 failures, 0 errors' in out:
+                ran['upstream self-tests'] = out.strip()
         # the pinned 42: run the pinned command inside the patched worktree,
         # count the pinned ids that still pass
         rc, out = sh('%s -m pytest -q -p no:cacheprovider --timeout=900 '
